@@ -202,6 +202,7 @@ pub fn case_from_bytes(p: &Profile, data: &[u8]) -> Option<Case> {
         consumer_probe_polls: s.pct(50),
         chained_streams: s.pct(40),
         stream_self_wakes: if s.pct(30) { s.range(1, 2) as u8 } else { 0 },
+        guard_syncs: s.pct(15),
     };
     let ncallers = s.range(p.callers.0, p.callers.1);
     let mut callers = vec![];
